@@ -42,7 +42,7 @@ def _props_of(func, clause, kind):
             return {"C07", "C04"}
         return {"C07"}
     if kind == "frame-static":
-        return {"C19"}
+        return {"C18"} if (func or "").startswith("_filter:") and "cost" in (clause or "") or (clause or "").startswith("no-retry") else {"C19"}
     if kind == "joint":
         return {"C11"}
     if any(n in f for n in ("_filter:_unpack_filter", "_filter._unpack_filter", "_unpack_complex_filter", "_unpack_simple_filter", "LDAPFilter.from_string")):
@@ -234,6 +234,18 @@ def run_property(pid, tier):
             by_name.setdefault(o["name"], []).append(o)
         func_rows.append({"function": "pyvc.frames.analyse (all repository modules)", "obligations": sum(1 for o in instances if o["kind"] == "frame-static"),
                           "discharged": sum(1 for o in instances if o["kind"] == "frame-static" and o["status"] == "proved"), "seconds": round(time.time() - t1, 2)})
+    # ---- static cost rule (C18): a failing call of a recursive parser is never caught and retried
+    if reg.get("static") == "cost":
+        from pyvc.frontend import Program
+        from pyvc import frames
+        cycles = {"_filter": ["_unpack_filter", "_unpack_complex_filter", "_unpack_simple_filter", "LDAPFilter.unpack", "FilterAnd.unpack", "FilterOr.unpack", "FilterNot.unpack"]}
+        for fo in frames.no_retry(Program(os.environ.get("SANSLDAP_SRC")), cycles):
+            o = {"name": fo["name"], "kind": "frame-static", "status": fo["status"], "time": 0.0, "backend": "syntactic rule (pyvc.frames.no_retry)",
+                 "lineno": 0, "clause": fo["rule"] + (": " + fo["detail"] if fo["detail"] else ""), "function": fo["where"], "model": None}
+            instances.append(o)
+            by_name.setdefault(o["name"], []).append(o)
+        func_rows.append({"function": "pyvc.frames.no_retry (recursive parsers of _filter.py)", "obligations": sum(1 for o in instances if o["kind"] == "frame-static"),
+                          "discharged": sum(1 for o in instances if o["kind"] == "frame-static" and o["status"] == "proved")})
     # ---- contract-level joint invariant (C11): transition relations derived from the proved L3 contracts
     if reg.get("joint"):
         from pyvc import joint
